@@ -91,4 +91,311 @@ mutual
       exact ⟨rfl, rfl⟩
 end
 
+/-! ### windows of run-local identities -/
+
+/-- identities allocated by the running call with a number in `[b, m)` -/
+def inR (b m : Nat) : Id → Bool
+  | .tmp n => decide (b ≤ n) && decide (n < m)
+  | _ => false
+
+/-- every identity except the run-local ones numbered `≥ b` -/
+def below (b : Nat) : Id → Bool
+  | .tmp n => decide (n < b)
+  | _ => true
+
+theorem inR_mono {b b' m m' : Nat} (hb : b' ≤ b) (hm : m ≤ m') (i : Id) :
+    inR b m i = true → inR b' m' i = true := by
+  cases i <;> simp [inR] <;> omega
+
+theorem inR_not_below {b m : Nat} (i : Id) : inR b m i = true → below b i = false := by
+  cases i <;> simp [inR, below] <;> omega
+
+theorem inR_below {b m : Nat} (i : Id) : inR b m i = true → below m i = true := by
+  cases i <;> simp [inR, below]
+
+theorem inR_isTmp {b m : Nat} (i : Id) : inR b m i = true → i.isTmp = true := by
+  cases i <;> simp [inR, Id.isTmp]
+
+theorem below_mono {b b' : Nat} (h : b ≤ b') (i : Id) : below b i = true → below b' i = true := by
+  cases i <;> simp [below] <;> omega
+
+theorem notTmp_below (b : Nat) (i : Id) : (!i.isTmp) = true → below b i = true := by
+  cases i <;> simp [below, Id.isTmp]
+
+theorem inR_tmp {b m n : Nat} (h1 : b ≤ n) (h2 : n < m) : inR b m (.tmp n) = true := by
+  simp [inR]; omega
+
+def allLL (p : Id → Bool) : List (List HV) → Bool
+  | [] => true
+  | l :: r => allL p l && allLL p r
+
+mutual
+  theorem all_mono {p q : Id → Bool} (h : ∀ i, p i = true → q i = true) :
+      ∀ v : HV, v.all p = true → v.all q = true
+    | .atom _, _ => by simp [HV.all]
+    | .node i d kids, hv => by
+      simp only [HV.all, Bool.and_eq_true] at hv ⊢
+      exact ⟨h i hv.1, allKids_mono h kids hv.2⟩
+  theorem allKids_mono {p q : Id → Bool} (h : ∀ i, p i = true → q i = true) :
+      ∀ ks : Kids, allKids p ks = true → allKids q ks = true
+    | [], _ => by simp [allKids]
+    | (k, v) :: r, hv => by
+      simp only [allKids, Bool.and_eq_true] at hv ⊢
+      exact ⟨all_mono h v hv.1, allKids_mono h r hv.2⟩
+end
+
+theorem allL_mono {p q : Id → Bool} (h : ∀ i, p i = true → q i = true) :
+    ∀ l : List HV, allL p l = true → allL q l = true
+  | [], _ => by simp [allL]
+  | v :: r, hv => by
+    simp only [allL, Bool.and_eq_true] at hv ⊢
+    exact ⟨all_mono h v hv.1, allL_mono h r hv.2⟩
+
+theorem allLL_mono {p q : Id → Bool} (h : ∀ i, p i = true → q i = true) :
+    ∀ l : List (List HV), allLL p l = true → allLL q l = true
+  | [], _ => by simp [allLL]
+  | v :: r, hv => by
+    simp only [allLL, Bool.and_eq_true] at hv ⊢
+    exact ⟨allL_mono h v hv.1, allLL_mono h r hv.2⟩
+
+theorem allColls_mono {p q : Id → Bool} (h : ∀ i, p i = true → q i = true) :
+    ∀ l : List (String × List HV), allColls p l = true → allColls q l = true
+  | [], _ => by simp [allColls]
+  | (_, v) :: r, hv => by
+    simp only [allColls, Bool.and_eq_true] at hv ⊢
+    exact ⟨allL_mono h v hv.1, allColls_mono h r hv.2⟩
+
+theorem mutateLL_noop (p : Id → Bool) (id : Id) (f : Kids → Kids) (hid : p id = false) :
+    ∀ l : List (List HV), allLL p l = true → mutateLL id f l = l
+  | [], _ => by simp [mutateLL]
+  | v :: r, h => by
+    simp only [allLL, Bool.and_eq_true] at h
+    simp only [mutateLL]
+    rw [mutateL_noop p id f hid v h.1, mutateLL_noop p id f hid r h.2]
+
+/-! ### list / dict operations keep `all p` -/
+
+theorem allL_append (p : Id → Bool) : ∀ a b : List HV, allL p (a ++ b) = (allL p a && allL p b)
+  | [], b => by simp [allL]
+  | v :: r, b => by simp [allL, allL_append p r b, Bool.and_assoc]
+
+theorem allLL_append (p : Id → Bool) : ∀ a b : List (List HV), allLL p (a ++ b) = (allLL p a && allLL p b)
+  | [], b => by simp [allLL]
+  | v :: r, b => by simp [allLL, allLL_append p r b, Bool.and_assoc]
+
+theorem allL_getElem? {p : Id → Bool} : ∀ (l : List HV) (j : Nat) (v : HV),
+    allL p l = true → l[j]? = some v → v.all p = true
+  | [], _, _, _, h => by simp at h
+  | x :: r, 0, v, hl, h => by
+    simp only [allL, Bool.and_eq_true] at hl
+    simp at h; subst h; exact hl.1
+  | x :: r, j + 1, v, hl, h => by
+    simp only [allL, Bool.and_eq_true] at hl
+    simp at h; exact allL_getElem? r j v hl.2 h
+
+theorem allL_set {p : Id → Bool} : ∀ (l : List HV) (j : Nat) (v : HV),
+    allL p l = true → v.all p = true → allL p (l.set j v) = true
+  | [], _, _, _, _ => by simp [allL]
+  | x :: r, 0, v, hl, hv => by
+    simp only [allL, Bool.and_eq_true] at hl
+    simp [List.set, allL, hv, hl.2]
+  | x :: r, j + 1, v, hl, hv => by
+    simp only [allL, Bool.and_eq_true] at hl
+    simp [List.set, allL, hl.1, allL_set r j v hl.2 hv]
+
+theorem allL_take {p : Id → Bool} : ∀ (l : List HV) (n : Nat), allL p l = true → allL p (l.take n) = true
+  | [], _, _ => by simp [allL]
+  | x :: r, 0, _ => by simp [allL]
+  | x :: r, n + 1, hl => by
+    simp only [allL, Bool.and_eq_true] at hl
+    simp [List.take, allL, hl.1, allL_take r n hl.2]
+
+theorem allL_pick {p : Id → Bool} (l : List HV) (hl : allL p l = true) :
+    ∀ idxs : List Nat, allL p (pick l idxs) = true
+  | [] => by simp [pick, allL]
+  | i :: r => by
+    simp only [pick]
+    split
+    · next v hv => simp [allL, allL_getElem? l i v hl hv, allL_pick l hl r]
+    · exact allL_pick l hl r
+
+theorem allKids_kget {p : Id → Bool} (k : String) : ∀ (ks : Kids) (v : HV),
+    allKids p ks = true → kget k ks = some v → v.all p = true
+  | [], _, _, h => by simp [kget] at h
+  | (k', x) :: r, v, hk, h => by
+    simp only [allKids, Bool.and_eq_true] at hk
+    simp only [kget] at h
+    split at h
+    · cases h; exact hk.1
+    · exact allKids_kget k r v hk.2 h
+
+theorem allKids_kset {p : Id → Bool} (k : String) (v : HV) (hv : v.all p = true) :
+    ∀ ks : Kids, allKids p ks = true → allKids p (kset k v ks) = true
+  | [], _ => by simp [kset, allKids, hv]
+  | (k', x) :: r, hk => by
+    simp only [allKids, Bool.and_eq_true] at hk
+    simp only [kset]
+    split
+    · simp [allKids, hv, hk.2]
+    · simp [allKids, hk.1, allKids_kset k v hv r hk.2]
+
+theorem allKids_kdel {p : Id → Bool} (k : String) :
+    ∀ ks : Kids, allKids p ks = true → allKids p (kdel k ks) = true
+  | [], _ => by simp [kdel, allKids]
+  | (k', x) :: r, hk => by
+    simp only [allKids, Bool.and_eq_true] at hk
+    simp only [kdel]
+    split
+    · exact hk.2
+    · simp [allKids, hk.1, allKids_kdel k r hk.2]
+
+theorem all_get {p : Id → Bool} (k : String) (x v : HV) (hx : x.all p = true)
+    (h : x.get k = some v) : v.all p = true := by
+  cases x with
+  | atom _ => simp [HV.get] at h
+  | node i d kids =>
+    cases d
+    · simp [HV.get] at h
+    · simp only [HV.get] at h
+      simp only [HV.all, Bool.and_eq_true] at hx
+      exact allKids_kget k kids v hx.2 h
+
+theorem all_setLocal {p : Id → Bool} (k : String) (x v : HV) (hx : x.all p = true)
+    (hv : v.all p = true) : (x.setLocal k v).all p = true := by
+  cases x with
+  | atom _ => simpa [HV.setLocal] using hx
+  | node i d kids =>
+    simp only [HV.all, Bool.and_eq_true] at hx
+    simp [HV.setLocal, HV.all, hx.1, allKids_kset k v hv kids hx.2]
+
+theorem all_delLocal {p : Id → Bool} (k : String) (x : HV) (hx : x.all p = true) :
+    (x.delLocal k).all p = true := by
+  cases x with
+  | atom _ => simpa [HV.delLocal] using hx
+  | node i d kids =>
+    simp only [HV.all, Bool.and_eq_true] at hx
+    simp [HV.delLocal, HV.all, hx.1, allKids_kdel k kids hx.2]
+
+theorem all_id? {p : Id → Bool} (x : HV) (id : Id) (hx : x.all p = true) (h : x.id? = some id) :
+    p id = true := by
+  cases x with
+  | atom _ => simp [HV.id?] at h
+  | node i d kids =>
+    simp only [HV.all, Bool.and_eq_true] at hx
+    simp [HV.id?] at h; subst h; exact hx.1
+
+theorem allKids_mapList {p : Id → Bool} : ∀ l : List HV,
+    allKids p (l.map (fun v => ("", v))) = allL p l
+  | [] => by simp [allKids, allL]
+  | v :: r => by simp [allKids, allL, allKids_mapList r]
+
+theorem all_getPath {p : Id → Bool} : ∀ (path : List String) (x r : HV),
+    x.all p = true → getPath path x = .ok (some r) → r.all p = true
+  | [], x, r, hx, h => by simp [getPath] at h; subst h; exact hx
+  | k :: path, .atom _, r, _, h => by simp [getPath] at h
+  | k :: path, .node _ false _, r, _, h => by simp [getPath] at h
+  | k :: path, .node i true kids, r, hx, h => by
+    simp only [getPath] at h
+    simp only [HV.all, Bool.and_eq_true] at hx
+    split at h
+    · next c hc => exact all_getPath path c r (allKids_kget k kids c hx.2 hc) h
+    · simp at h
+
+/-! ### in-place writes keep `all p` when what is written satisfies `p` -/
+
+mutual
+  theorem mutate_all {p : Id → Bool} (id : Id) (f : Kids → Kids)
+      (hf : ∀ ks, allKids p ks = true → allKids p (f ks) = true) :
+      ∀ v : HV, v.all p = true → (mutate id f v).all p = true
+    | .atom _, _ => by simp [mutate, HV.all]
+    | .node i d kids, h => by
+      simp only [HV.all, Bool.and_eq_true] at h
+      simp only [mutate]
+      split
+      · simp [HV.all, h.1, hf kids h.2]
+      · simp [HV.all, h.1, mutateKids_all id f hf kids h.2]
+  theorem mutateKids_all {p : Id → Bool} (id : Id) (f : Kids → Kids)
+      (hf : ∀ ks, allKids p ks = true → allKids p (f ks) = true) :
+      ∀ ks : Kids, allKids p ks = true → allKids p (mutateKids id f ks) = true
+    | [], _ => by simp [mutateKids, allKids]
+    | (k, v) :: r, h => by
+      simp only [allKids, Bool.and_eq_true] at h
+      simp [mutateKids, allKids, mutate_all id f hf v h.1, mutateKids_all id f hf r h.2]
+end
+
+theorem mutateL_all {p : Id → Bool} (id : Id) (f : Kids → Kids)
+    (hf : ∀ ks, allKids p ks = true → allKids p (f ks) = true) :
+    ∀ l : List HV, allL p l = true → allL p (mutateL id f l) = true
+  | [], _ => by simp [mutateL, allL]
+  | v :: r, h => by
+    simp only [allL, Bool.and_eq_true] at h
+    simp [mutateL, allL, mutate_all id f hf v h.1, mutateL_all id f hf r h.2]
+
+/-! ### copies are allocated in the window -/
+
+mutual
+  theorem deepTmp_inR : ∀ (v : HV) (n : Nat),
+      n ≤ (deepTmp v n).2 ∧ (deepTmp v n).1.all (inR n (deepTmp v n).2) = true
+    | .atom _, n => by simp [deepTmp, HV.all]
+    | .node _ d kids, n => by
+      have h := deepTmpKids_inR kids (n + 1)
+      simp only [deepTmp, HV.all, Bool.and_eq_true]
+      refine ⟨by omega, inR_tmp (Nat.le_refl _) (by omega), ?_⟩
+      exact allKids_mono (fun i hi => inR_mono (by omega) (Nat.le_refl _) i hi) _ h.2
+  theorem deepTmpKids_inR : ∀ (ks : Kids) (n : Nat),
+      n ≤ (deepTmpKids ks n).2 ∧ allKids (inR n (deepTmpKids ks n).2) (deepTmpKids ks n).1 = true
+    | [], n => by simp [deepTmpKids, allKids]
+    | (k, v) :: r, n => by
+      have h1 := deepTmp_inR v n
+      have h2 := deepTmpKids_inR r (deepTmp v n).2
+      simp only [deepTmpKids, allKids, Bool.and_eq_true]
+      exact ⟨by omega, all_mono (fun i hi => inR_mono (Nat.le_refl _) h2.1 i hi) _ h1.2,
+        allKids_mono (fun i hi => inR_mono h1.1 (Nat.le_refl _) i hi) _ h2.2⟩
+end
+
+theorem deepTmp_win {b : Nat} (v : HV) (n : Nat) (hb : b ≤ n) :
+    n ≤ (deepTmp v n).2 ∧ (deepTmp v n).1.all (inR b (deepTmp v n).2) = true :=
+  ⟨(deepTmp_inR v n).1, all_mono (fun i hi => inR_mono hb (Nat.le_refl _) i hi) _ (deepTmp_inR v n).2⟩
+
+theorem deepTmpL_win {b : Nat} : ∀ (l : List HV) (n : Nat), b ≤ n →
+    n ≤ (deepTmpL l n).2 ∧ allL (inR b (deepTmpL l n).2) (deepTmpL l n).1 = true
+  | [], n, _ => by simp [deepTmpL, allL]
+  | v :: r, n, hb => by
+    have h1 := deepTmp_win (b := b) v n hb
+    have h2 := deepTmpL_win (b := b) r (deepTmp v n).2 (by omega)
+    simp only [deepTmpL, allL, Bool.and_eq_true]
+    exact ⟨by omega, all_mono (fun i hi => inR_mono (Nat.le_refl _) h2.1 i hi) _ h1.2, h2.2⟩
+
+theorem shallowTmp_win {b : Nat} (v : HV) (n : Nat) (hb : b ≤ n) (hv : v.all (inR b n) = true) :
+    n ≤ (shallowTmp v n).2 ∧ (shallowTmp v n).1.all (inR b (shallowTmp v n).2) = true := by
+  cases v with
+  | atom _ => simp [shallowTmp, HV.all]
+  | node i d kids =>
+    simp only [HV.all, Bool.and_eq_true] at hv
+    simp only [shallowTmp, HV.all, Bool.and_eq_true]
+    exact ⟨by omega, inR_tmp hb (by omega),
+      allKids_mono (fun i hi => inR_mono (Nat.le_refl _) (by omega) i hi) _ hv.2⟩
+
+theorem runL_shallow_win {b : Nat} : ∀ (l : List HV) (n : Nat), b ≤ n → allL (inR b n) l = true →
+    n ≤ (Copy.runL .shallow l n).2 ∧
+      allL (inR b (Copy.runL .shallow l n).2) (Copy.runL .shallow l n).1 = true
+  | [], n, _, _ => by simp [Copy.runL, allL]
+  | v :: r, n, hb, hl => by
+    simp only [allL, Bool.and_eq_true] at hl
+    have h1 := shallowTmp_win (b := b) v n hb hl.1
+    have h2 := runL_shallow_win (b := b) r (shallowTmp v n).2 (by omega)
+      (allL_mono (fun i hi => inR_mono (Nat.le_refl _) h1.1 i hi) _ hl.2)
+    simp only [Copy.runL, Copy.run, allL, Bool.and_eq_true]
+    exact ⟨by omega, all_mono (fun i hi => inR_mono (Nat.le_refl _) h2.1 i hi) _ h1.2, h2.2⟩
+
+theorem nestNew_win {b : Nat} : ∀ (path : List String) (v : HV) (n : Nat), b ≤ n →
+    v.all (inR b n) = true →
+    n ≤ (nestNew path v n).2 ∧ (nestNew path v n).1.all (inR b (nestNew path v n).2) = true
+  | [], v, n, _, hv => by simpa [nestNew] using hv
+  | k :: r, v, n, hb, hv => by
+    have h := nestNew_win (b := b) r v (n + 1) (by omega)
+      (all_mono (fun i hi => inR_mono (Nat.le_refl _) (by omega) i hi) _ hv)
+    simp only [nestNew, HV.all, allKids, Bool.and_eq_true, Bool.and_true]
+    exact ⟨by omega, inR_tmp hb (by omega), h.2⟩
+
 end MongoModel.Proofs.C16
